@@ -174,9 +174,16 @@ PLANS = {
                   'Ructe.C17Rerun.step_announces_root', 'Ructe.C17Rerun.resolve_congr'],
         runs=[dict(suite='script', mix='statics,tree', n=dict(quick=150, thorough=1500), projection='script+stdout', tags=['C17']),
               # stylesheets with partials / imports in other directories (rsass is opaque to the model: oracle only)
-              dict(suite='script', features=['sass'], mix='sassimports', n=dict(quick=40, thorough=400), projection='script+', tags=['C17'])],
+              dict(suite='script', features=['sass'], mix='sassimports', n=dict(quick=40, thorough=400), projection='script+', tags=['C17']),
+              # single edits of the input tree: whenever a new run would give another result, the edited path must be
+              # covered by a line of the previous run (C17Rerun.change_triggers_rerun evaluated on the implementation),
+              # and a real `cargo build` of a scratch package must decide to run the script again
+              dict(suite='rerun', mix='statics,tree', n=dict(quick=40, thorough=400), projection='script+stdout+files+names', tags=['C17'],
+                   args=dict(quick=['--cargo', '8'], thorough=['--cargo', '80'])),
+              dict(suite='rerun', features=['sass'], mix='sassimports', n=dict(quick=20, thorough=200), projection='script+', tags=['C17'],
+                   args=dict(quick=['--cargo', '4'], thorough=['--cargo', '40']))],
         correspondence='the lines printed to stdout by a whole build-script run (public API, child process) vs Ructe.build, given the same input tree and read_dir order',
-        rule='random build scripts over compile_templates / add_file / add_files / add_file_as / add_files_as (nested sub-directories) / add_file_data on random trees (tmpfs and ext4, relative and absolute paths); oracle: every directory listed and every file read or embedded is covered by a cargo:rerun-if-changed line for itself or an ancestor; non-trivial = distinct run outputs',
+        rule='random build scripts over compile_templates / add_file / add_files / add_file_as / add_files_as (nested sub-directories) / add_file_data on random trees (tmpfs and ext4, relative and absolute paths); oracle: every directory listed and every file read or embedded is covered by a cargo:rerun-if-changed line for itself or an ancestor. Suite rerun: after each run 2..3 single edits (modify / delete / add a file in an input directory, a sub-directory, a new sub-directory, an unrelated place; delete a directory; break a template; edit a Sass partial), each followed by a run into an empty OUT_DIR: if the result differs the edited path must be covered by a line of the last run cargo executed; for the first scenarios the tree is also a real cargo package and `cargo build --offline` itself decides whether to run the build script again; non-trivial = distinct run outputs',
         assumptions=['cargo re-runs a build script when a listed path, or anything under a listed directory, changes (cargo\'s documented rule, modelled as the `covered` predicate)', 'add_sass_file reads through rsass\' CargoContext, which prints its own lines: opaque to the model; the oracle on the implementation covers it (stylesheets importing partials from the same, a sub-, a sibling and a distant directory must have every loaded file announced)'],
         level_text='Theorem announced (every path the model reads is covered by a printed line) over Ructe.build. The second half of the statement ("so that adding, editing or deleting an input makes cargo run the build script again") is proved over an explicit input tree (RucteModel/InFS.lean: what the operating system shows at a path; calls as written in build.rs): rerun_sound / no_rerun_nothing_stale - if the trees before and after ANY edit agree at every path the first run announced (cargo sees no reason to run the script again) then the script resolves to exactly the same calls, so nothing is stale; change_triggers_rerun - if a run on the edited tree would produce anything else (other bytes, other lines, a failure) then some announced path changed. cargo\'s rule itself (re-run iff the file at an announced path, or anything under an announced directory, changed) is the trusted part. Tie on the printed lines; oracle on the implementation with the harness\' own knowledge of the inputs.',
         level_note='Trusted: Lean kernel; hand-written model of lib.rs / staticfiles.rs on an abstract file system; cargo\'s rerun rule.',
